@@ -1190,6 +1190,86 @@ Proof.
   rewrite (n_tail_tr _ _ _ Ht). rewrite (n_text_ok ls n Hok). reflexivity.
 Qed.
 
+
+(* Examples *)
+Lemma n_rb_rest_cons : forall l r,
+  n_rb_rest (l :: r) =
+  if is_empty_line l && (next_is_dash r || next_is_dash (tl r)) then ([], 0)
+  else let '(b, k) := n_rb_rest r in (l :: b, S k).
+Proof. reflexivity. Qed.
+
+Lemma n_rb_rest_body : forall L tail tr n, Forall (fun l => is_dash_line l = false) L ->
+  (L = [] \/ is_empty_line (last L []) = false) -> n_tail_ok tail tr n ->
+  n_rb_rest (L ++ tail) = (L, List.length L).
+Proof.
+  intros L tail tr n. induction L as [|l L1 IH]; intros Hd Hl Ht.
+  - simpl. destruct Ht as [|h d more Hh Hdd]; [reflexivity|].
+    rewrite n_rb_rest_cons. simpl is_empty_line. simpl tl. unfold next_is_dash at 2. rewrite Hdd. rewrite orb_true_r. reflexivity.
+  - inversion Hd as [|? ? Hdl Hd1]; subst.
+    assert (Hl1 : L1 = [] \/ is_empty_line (last L1 []) = false).
+    { destruct L1 as [|x L2]; [left; reflexivity|right]. destruct Hl as [Hl|Hl]; [discriminate|]. exact Hl. }
+    rewrite <- app_comm_cons. rewrite n_rb_rest_cons. rewrite (IH Hd1 Hl1 Ht).
+    destruct (is_empty_line l) eqn:He; [|reflexivity].
+    (* a blank line inside the body: the two lines after it are no dash lines *)
+    destruct L1 as [|x L2].
+    + destruct Hl as [Hl|Hl]; [discriminate|]. simpl in Hl. congruence.
+    + inversion Hd1 as [|? ? Hx Hd2]; subst.
+      assert (H1 : next_is_dash ((x :: L2) ++ tail) = false) by (simpl; exact Hx).
+      assert (H2 : next_is_dash (tl ((x :: L2) ++ tail)) = false).
+      { simpl tl. destruct L2 as [|y L3].
+        - simpl. destruct Ht; reflexivity.
+        - inversion Hd2; subst. simpl. assumption. }
+      rewrite H1, H2. reflexivity.
+Qed.
+
+Lemma flatten_lines : forall chunks, forallb wf_chunk chunks = true -> chunks <> [] ->
+  flatten_chunks chunks <> [] /\
+  (forall l, In l (flatten_chunks chunks) -> forallb printable l = true) /\
+  is_empty_line (hd [] (flatten_chunks chunks)) = false /\
+  is_empty_line (last (flatten_chunks chunks) []) = false.
+Proof.
+  induction chunks as [|[b ls] rest IH]; intros Hw Hne; [congruence|].
+  simpl in Hw. apply andb_true_iff in Hw. destruct Hw as [Hc Hrest].
+  destruct (wf_chunk_lines b ls Hc) as [Hn Hl].
+  assert (Hlast : is_empty_line (last ls []) = false) by (apply (Hl (last ls [])); apply last_in; exact Hn).
+  assert (Hhd : is_empty_line (hd [] ls) = false) by (destruct ls as [|x r]; [congruence|]; apply (Hl x); left; reflexivity).
+  destruct rest as [|ch2 rest1].
+  - simpl. repeat split; auto. intros l Hin. apply (Hl l Hin).
+  - destruct (IH Hrest ltac:(discriminate)) as [A [B [C D]]].
+    change (flatten_chunks ((b, ls) :: ch2 :: rest1)) with (ls ++ [] :: flatten_chunks (ch2 :: rest1)).
+    repeat split.
+    + destruct ls; [congruence|discriminate].
+    + intros l Hin. apply in_app_or in Hin. destruct Hin as [Hin|[<-|Hin]]; [apply (Hl l Hin)|reflexivity|apply B; exact Hin].
+    + destruct ls as [|x r]; [congruence|]. exact Hhd.
+    + rewrite last_app_nonempty by discriminate.
+      replace (last ([] :: flatten_chunks (ch2 :: rest1)) []) with (last (flatten_chunks (ch2 :: rest1)) [])
+        by (destruct (flatten_chunks (ch2 :: rest1)); [congruence|reflexivity]).
+      exact D.
+Qed.
+
+Lemma n_read_examples_ok : forall c chunks tail tr n, n_tail_ok tail tr n ->
+  forallb wf_chunk chunks = true -> no_adjacent_prose chunks = true -> chunks <> [] ->
+  forallb (fun l => negb (is_dash_line l)) (flatten_chunks chunks) = true ->
+  n_read_section n_default_opts c KExamples (flatten_chunks chunks ++ tail) =
+  NRS (BExamples (map (expect_chunk true) chunks)) (List.length (flatten_chunks chunks) + 0).
+Proof.
+  intros c chunks tail tr n Ht Hw Hadj Hne Hnd.
+  destruct (flatten_lines chunks Hw Hne) as [Hfn [HP [Hhd Hlast]]].
+  assert (Hd : Forall (fun l => is_dash_line l = false) (flatten_chunks chunks)).
+  { apply Forall_forall. intros l Hin. rewrite forallb_forall in Hnd. specialize (Hnd l Hin). apply negb_true_iff in Hnd. exact Hnd. }
+  unfold n_read_section, n_read_block.
+  destruct (flatten_chunks chunks) as [|l0 ls] eqn:EF; [congruence|].
+  simpl hd in Hhd. rewrite <- app_comm_cons.
+  simpl skip_empty. rewrite Hhd.
+  rewrite app_comm_cons. rewrite (n_rb_rest_body (l0 :: ls) tail tr n Hd (or_intror Hlast) Ht).
+  assert (Hlne : last (l0 :: ls) [] <> []) by (destruct (last (l0 :: ls) []); [discriminate|discriminate]).
+  rewrite (rstrip_join (l0 :: ls) ltac:(discriminate) HP Hlne).
+  unfold parse_examples. change (n_trim n_default_opts) with true.
+  assert (Hnn : l0 :: ls <> []) by discriminate.
+  rewrite (split_nl_join _ Hnn HP). rewrite <- EF.
+  rewrite (ex_chunks true chunks Hw Hadj). rewrite EF. f_equal. simpl. lia.
+Qed.
+
 (* ---- the main loop *)
 Lemma nloop_cons : forall f o c cur adm incode l rest,
   nloop (S f) o c cur adm incode (l :: rest) =
@@ -1218,34 +1298,99 @@ Lemma nloop_nil : forall f o c cur adm incode,
   POk (if nonempty_list cur && is_nil adm && negb (any_truthy cur) then [GText []] else n_append cur adm).
 Proof. reflexivity. Qed.
 
-Definition body_line_ok (l : str) : Prop :=
-  is_fence (lower l) = false /\ is_dash_line l = false /\ (l = [] \/ is_empty_line l = false).
-
-Lemma nloop_body : forall o c ls rest cur adm f, Forall body_line_ok ls -> rest <> [] -> is_dash_line (hd [] rest) = false ->
-  nloop (List.length ls + f) o c cur adm false (ls ++ rest) = nloop f o c (cur ++ ls) adm false rest.
+(* a fence line is not a dash line *)
+Lemma fence_not_dash : forall l, is_fence l = true -> is_dash_line l = false.
 Proof.
-  intros o c ls. induction ls as [|l ls' IH]; intros rest cur adm f Hls Hne Hd.
-  - simpl. rewrite app_nil_r. reflexivity.
-  - inversion Hls as [|? ? [Hf [Hdl Hl]] Hls']; subst.
-    simpl List.length. simpl plus. rewrite <- app_comm_cons. rewrite nloop_cons. rewrite Hf.
-    assert (Hnext : nloop (List.length ls' + f) o c (cur ++ [l]) adm false (ls' ++ rest) = nloop f o c (cur ++ l :: ls') adm false rest).
-    { rewrite (IH rest (cur ++ [l]) adm f Hls' Hne Hd). rewrite <- app_assoc. reflexivity. }
-    destruct Hl as [->|He].
-    + simpl is_empty_line. cbv iota. exact Hnext.
-    + rewrite He. destruct (ls' ++ rest) as [|d after] eqn:E.
-      * destruct ls'; [simpl in E; congruence|discriminate].
-      * assert (Hdd : is_dash_line d = false).
-        { destruct ls' as [|l2 ls'']; simpl in E.
-          - subst rest. exact Hd.
-          - inversion E; subst. inversion Hls' as [|? ? [_ [H2 _]] _]; subst. exact H2. }
-        rewrite Hdd. exact Hnext.
+  intros l H. unfold is_dash_line. apply andb_false_iff. right.
+  unfold is_fence in H. induction l as [|x l IH]; [discriminate|].
+  simpl in H. simpl. destruct (ceq x sp) eqn:E.
+  - apply ceq_eq in E. subst x. simpl. apply IH. exact H.
+  - destruct l as [|y l']; simpl in H.
+    + rewrite andb_false_r in H. discriminate.
+    + apply andb_true_iff in H. destruct H as [Hx _]. apply ceq_eq in Hx. subst x. reflexivity.
 Qed.
 
-Lemma nloop_last : forall o c l cur adm f, body_line_ok l -> l <> [] ->
-  nloop (S f) o c cur adm false [l] = POk (n_append (cur ++ [l]) adm).
+Lemma lower_char_space : forall c, is_space (lower_char c) = is_space c.
+Proof. destruct c as [[] [] [] [] [] [] [] []]; reflexivity. Qed.
+Lemma lower_char_dash : forall c, ceq (lower_char c) dash = ceq c dash.
+Proof. destruct c as [[] [] [] [] [] [] [] []]; reflexivity. Qed.
+
+Lemma lower_dash : forall l, is_dash_line (lower l) = is_dash_line l.
 Proof.
-  intros o c l cur adm f [Hf [_ Hl]] Hne. rewrite nloop_cons. rewrite Hf.
-  destruct Hl as [->|He]; [congruence|]. rewrite He. reflexivity.
+  intros l. unfold is_dash_line. f_equal.
+  - f_equal. unfold is_empty_line, lower. induction l as [|x l IH]; [reflexivity|]. simpl. rewrite IH, lower_char_space. reflexivity.
+  - unfold lower. induction l as [|x l IH]; [reflexivity|]. simpl. rewrite IH, lower_char_space, lower_char_dash. reflexivity.
+Qed.
+
+Lemma wf_nbody_hd_not_dash : forall d r, wf_nbody_lines false (d :: r) = true -> is_dash_line d = false.
+Proof.
+  intros d r H. simpl in H. apply andb_true_iff in H. destruct H as [_ H].
+  destruct (is_fence (lower d)) eqn:E.
+  - rewrite <- lower_dash. apply fence_not_dash. exact E.
+  - apply andb_true_iff in H. destruct H as [H _]. apply andb_true_iff in H. destruct H as [_ H]. apply negb_true_iff in H. exact H.
+Qed.
+
+(* the lines of a body, followed by something: all of them go to the current section *)
+Lemma nloop_lines : forall o c ls rest cur adm f incode, wf_nbody_lines incode ls = true ->
+  rest <> [] -> is_dash_line (hd [] rest) = false ->
+  nloop (List.length ls + f) o c cur adm incode (ls ++ rest) = nloop f o c (cur ++ ls) adm false rest.
+Proof.
+  intros o c ls. induction ls as [|l ls' IH]; intros rest cur adm f incode Hw Hne Hd.
+  - simpl in Hw. apply negb_true_iff in Hw. subst incode. simpl. rewrite app_nil_r. reflexivity.
+  - simpl in Hw. apply andb_true_iff in Hw. destruct Hw as [Hp Hw].
+    simpl List.length. simpl plus. rewrite <- app_comm_cons. rewrite nloop_cons.
+    destruct incode.
+    + rewrite (IH rest (cur ++ [l]) adm f _ Hw Hne Hd). rewrite <- app_assoc. reflexivity.
+    + destruct (is_fence (lower l)) eqn:Ef.
+      * rewrite (IH rest (cur ++ [l]) adm f _ Hw Hne Hd). rewrite <- app_assoc. reflexivity.
+      * apply andb_true_iff in Hw. destruct Hw as [Hw Hrest]. apply andb_true_iff in Hw. destruct Hw as [Hbl Hdash].
+        assert (Hnext : nloop (List.length ls' + f) o c (cur ++ [l]) adm false (ls' ++ rest) = nloop f o c (cur ++ l :: ls') adm false rest).
+        { rewrite (IH rest (cur ++ [l]) adm f false Hrest Hne Hd). rewrite <- app_assoc. reflexivity. }
+        destruct l as [|x l'].
+        -- simpl is_empty_line. cbv iota. exact Hnext.
+        -- destruct (is_empty_line (x :: l')) eqn:He; [simpl in Hbl; discriminate|].
+           destruct (ls' ++ rest) as [|d after] eqn:E.
+           ++ destruct ls'; [simpl in E; congruence|discriminate].
+           ++ assert (Hdd : is_dash_line d = false).
+              { destruct ls' as [|l2 ls'']; simpl in E.
+                - subst rest. exact Hd.
+                - inversion E; subst. apply (wf_nbody_hd_not_dash d ls'' Hrest). }
+              rewrite Hdd. exact Hnext.
+Qed.
+
+(* the lines of a body at the very end of the docstring *)
+Lemma nloop_lines_end : forall o c ls cur adm f incode, wf_nbody_lines incode ls = true -> ls <> [] ->
+  is_empty_line (last ls []) = false ->
+  nloop (S (List.length ls) + f) o c cur adm incode ls = POk (n_append (cur ++ ls) adm).
+Proof.
+  intros o c ls. induction ls as [|l ls' IH]; intros cur adm f incode Hw Hne Hl; [congruence|].
+  simpl in Hw. apply andb_true_iff in Hw. destruct Hw as [Hp Hw].
+  assert (Hany : forall X, is_empty_line (last (l :: ls') []) = false -> any_truthy (X ++ l :: ls') = true).
+  { intros X H. unfold any_truthy. rewrite existsb_app. apply orb_true_iff. right. apply existsb_exists.
+    exists (last (l :: ls') []). split; [apply last_in; discriminate|]. destruct (last (l :: ls') []); [discriminate|reflexivity]. }
+  destruct ls' as [|l2 ls''].
+  - (* the last line *)
+    simpl in Hl. simpl List.length. simpl plus. rewrite nloop_cons.
+    assert (Hend : nloop (S f) o c (cur ++ [l]) adm (negb (is_fence (lower l))) [] = POk (n_append (cur ++ [l]) adm) /\
+                   nloop (S f) o c (cur ++ [l]) adm true [] = POk (n_append (cur ++ [l]) adm)).
+    { split; rewrite nloop_nil; rewrite (Hany cur Hl); rewrite andb_false_r; reflexivity. }
+    destruct Hend as [E1 E2].
+    destruct incode; [exact E1|].
+    destruct (is_fence (lower l)); [exact E2|]. rewrite Hl. reflexivity.
+  - change (last (l :: l2 :: ls'') []) with (last (l2 :: ls'') []) in Hl.
+    change (S (List.length (l :: l2 :: ls'')) + f) with (S (S (List.length (l2 :: ls'')) + f)).
+    rewrite nloop_cons.
+    destruct incode.
+    + rewrite (IH (cur ++ [l]) adm f _ Hw ltac:(discriminate) Hl). rewrite <- app_assoc. reflexivity.
+    + destruct (is_fence (lower l)) eqn:Ef.
+      * rewrite (IH (cur ++ [l]) adm f _ Hw ltac:(discriminate) Hl). rewrite <- app_assoc. reflexivity.
+      * apply andb_true_iff in Hw. destruct Hw as [Hw Hrest]. apply andb_true_iff in Hw. destruct Hw as [Hbl Hdash].
+        assert (Hnext : nloop (S (List.length (l2 :: ls'')) + f) o c (cur ++ [l]) adm false (l2 :: ls'') = POk (n_append (cur ++ l :: l2 :: ls'') adm)).
+        { rewrite (IH (cur ++ [l]) adm f false Hrest ltac:(discriminate) Hl). rewrite <- app_assoc. reflexivity. }
+        destruct l as [|x l'].
+        -- simpl is_empty_line. cbv iota. exact Hnext.
+        -- destruct (is_empty_line (x :: l')) eqn:He; [simpl in Hbl; discriminate|].
+           rewrite (wf_nbody_hd_not_dash l2 ls'' Hrest). exact Hnext.
 Qed.
 
 Lemma wf_nheader_facts : forall h, wf_nheader h = true ->
@@ -1281,7 +1426,7 @@ Proof. intros. destruct r; [simpl; rewrite app_nil_r; reflexivity|reflexivity]. 
 Lemma render_nontext_head : forall c s, wf_nsec c s = true -> n_is_text s = false ->
   exists h more, render_nsec s = h :: dashes h :: more /\ wf_nheader h = true.
 Proof.
-  intros c s H Ht. destruct s as [ls|k h its|h ls|h v ls]; [discriminate| | |]; simpl in H.
+  intros c s H Ht. destruct s as [ls|k h its|h ls|h v ls|trim h chunks]; [discriminate| | | |]; simpl in H.
   - apply andb_true_iff in H; destruct H as [H _]. apply andb_true_iff in H; destruct H as [H _].
     apply andb_true_iff in H; destruct H as [H _]. apply andb_true_iff in H; destruct H as [H _].
     eexists. eexists. split; [reflexivity|exact H].
@@ -1289,6 +1434,10 @@ Proof.
     eexists. eexists. split; [reflexivity|exact H].
   - apply andb_true_iff in H; destruct H as [H _]. apply andb_true_iff in H; destruct H as [H _].
     apply andb_true_iff in H; destruct H as [H _].
+    eexists. eexists. split; [reflexivity|exact H].
+  - apply andb_true_iff in H; destruct H as [H _]. apply andb_true_iff in H; destruct H as [H _].
+    apply andb_true_iff in H; destruct H as [H _]. apply andb_true_iff in H; destruct H as [H _].
+    apply andb_true_iff in H; destruct H as [H _]. apply andb_true_iff in H; destruct H as [H _].
     eexists. eexists. split; [reflexivity|exact H].
 Qed.
 
@@ -1330,21 +1479,25 @@ Proof.
   simpl n_expect_items. destruct (n_expect_item c k mult 0 it) as [|p ps]; [congruence|]. reflexivity.
 Qed.
 
+Lemma wf_nbody_printable : forall ls incode, wf_nbody_lines incode ls = true -> forall l, In l ls -> forallb printable l = true.
+Proof.
+  induction ls as [|x ls IH]; intros incode H l Hin; [destruct Hin|].
+  simpl in H. apply andb_true_iff in H. destruct H as [Hp H].
+  destruct Hin as [<-|Hin]; [exact Hp|].
+  destruct incode; [apply (IH _ H l Hin)|].
+  destruct (is_fence (lower x)); [apply (IH _ H l Hin)|].
+  apply andb_true_iff in H. destruct H as [_ H]. apply (IH _ H l Hin).
+Qed.
+
 Lemma wf_body_facts : forall ls, wf_body ls = true ->
-  ls <> [] /\ Forall body_line_ok ls /\ (forall l, In l ls -> forallb printable l = true) /\ last ls [] <> [].
+  ls <> [] /\ wf_nbody_lines false ls = true /\ (forall l, In l ls -> forallb printable l = true) /\
+  last ls [] <> [] /\ is_empty_line (last ls []) = false.
 Proof.
   intros ls H. unfold wf_body in H. apply andb_true_iff in H; destruct H as [H Hlast]. apply andb_true_iff in H; destruct H as [Hne Hall].
   assert (Hn : ls <> []) by (destruct ls; [discriminate|discriminate]).
+  apply negb_true_iff in Hlast.
   repeat split; auto.
-  - apply Forall_forall. intros l Hin. rewrite forallb_forall in Hall. specialize (Hall l Hin).
-    unfold wf_body_line in Hall.
-    apply andb_true_iff in Hall; destruct Hall as [Hall Hdash]. apply andb_true_iff in Hall; destruct Hall as [Hall Hfence].
-    apply andb_true_iff in Hall; destruct Hall as [Hp He].
-    apply negb_true_iff in Hdash. apply negb_true_iff in Hfence.
-    repeat split; auto. destruct l as [|x l']; [left; reflexivity|right]. simpl in He. apply negb_true_iff in He. exact He.
-  - intros l Hin. rewrite forallb_forall in Hall. specialize (Hall l Hin). unfold wf_body_line in Hall.
-    apply andb_true_iff in Hall; destruct Hall as [Hall _]. apply andb_true_iff in Hall; destruct Hall as [Hall _].
-    apply andb_true_iff in Hall; destruct Hall as [Hp _]. exact Hp.
+  - apply (wf_nbody_printable ls false Hall).
   - destruct (last ls []); [discriminate|discriminate].
 Qed.
 
@@ -1376,24 +1529,17 @@ Lemma body_then_rest : forall c ls adm r, wf_body ls = true ->
   nloop f n_default_opts c [] adm false (ls ++ n_tail_of r) = POk (flushed ls adm ++ expect_numpy c r).
 Proof.
   intros c ls adm r Hb HP f Hf.
-  destruct (wf_body_facts ls Hb) as [Hn [Hok [Hpr Hl]]].
+  destruct (wf_body_facts ls Hb) as [Hn [Hok [Hpr [Hl Hle]]]].
   destruct (n_append_flushed ls adm Hn Hpr Hl) as [F1 F2].
   destruct r as [|s2 r'].
   - simpl n_tail_of in *. rewrite app_nil_r in *.
-    destruct (exists_last Hn) as [ls' [l El]]. subst ls.
-    assert (Hok' : Forall body_line_ok ls' /\ body_line_ok l).
-    { apply Forall_app in Hok. destruct Hok as [A B]. inversion B; subst. auto. }
-    destruct Hok' as [Hok' Hlast].
-    assert (Hlne : l <> []) by (rewrite last_last in Hl; exact Hl).
-    rewrite app_length in Hf. simpl in Hf.
-    replace f with (List.length ls' + (f - List.length ls')) by lia.
-    rewrite (nloop_body n_default_opts c ls' [l] [] adm _ Hok'); [|discriminate|destruct Hlast as [_ [H _]]; exact H].
-    destruct (f - List.length ls') as [|f'] eqn:Ef; [lia|].
-    rewrite (nloop_last n_default_opts c l _ adm f' Hlast Hlne). simpl app at 1. rewrite F1. rewrite app_nil_r. reflexivity.
+    replace f with (S (List.length ls) + (f - S (List.length ls))) by lia.
+    rewrite (nloop_lines_end n_default_opts c ls [] adm _ false Hok Hn Hle).
+    simpl app at 1. rewrite F1. rewrite app_nil_r. reflexivity.
   - unfold n_tail_of in *. rewrite app_length in Hf.
     change (List.length ([] :: render_numpy (s2 :: r'))) with (S (List.length (render_numpy (s2 :: r')))) in Hf.
     replace f with (List.length ls + (f - List.length ls)) by lia.
-    rewrite (nloop_body n_default_opts c ls _ [] adm _ Hok); [|discriminate|reflexivity].
+    rewrite (nloop_lines n_default_opts c ls _ [] adm _ false Hok); [|discriminate|reflexivity].
     destruct (f - List.length ls) as [|f'] eqn:Ef; [lia|].
     rewrite nloop_cons. change (is_fence (lower [])) with false. change (is_empty_line []) with true. cbv iota.
     simpl app at 1.
@@ -1435,7 +1581,7 @@ Proof.
   { intros f' X Hf'. rewrite (n_after_block X r n Hn). destruct r as [|s2 r'].
     - destruct f'; [simpl in Hf'; lia|]. reflexivity.
     - rewrite (IHr ltac:(discriminate) f' [] [] Hf'). reflexivity. }
-  destruct s as [ls|k h its|h ls|h v ls]; [discriminate| | |].
+  destruct s as [ls|k h its|h ls|h v ls|trim h chunks]; [discriminate| | | |].
   - (* a section of items *)
     simpl in Hs.
     apply andb_true_iff in Hs; destruct Hs as [Hs Hfb].
@@ -1487,6 +1633,35 @@ Proof.
     rewrite Hrest.
     2:{ simpl in Hf. rewrite app_length in Hf. destruct r; simpl in *; lia. }
     rewrite pcons_ok. rewrite <- app_assoc. reflexivity.
+  - (* Examples *)
+    simpl in Hs.
+    apply andb_true_iff in Hs; destruct Hs as [Hs Hnd]. apply andb_true_iff in Hs; destruct Hs as [Hs Hadjp].
+    apply andb_true_iff in Hs; destruct Hs as [Hs Hchunks]. apply andb_true_iff in Hs; destruct Hs as [Hs Hcne].
+    apply andb_true_iff in Hs; destruct Hs as [Hs Htrim]. apply andb_true_iff in Hs; destruct Hs as [Hh Hkind].
+    destruct (n_section_kind (lower h)) as [k1|] eqn:Ek; [|discriminate].
+    destruct k1; try discriminate. subst trim.
+    assert (Hcn : chunks <> []) by (destruct chunks; [discriminate|discriminate]).
+    set (X := flatten_chunks chunks) in *.
+    change (render_nsec (NExamples true h chunks)) with (h :: dashes h :: X) in *.
+    assert (Hrs := n_read_examples_ok c chunks (n_tail_of r) tr n Htail Hchunks Hadjp Hcn Hnd). fold X in Hrs.
+    assert (Hlen : 2 + List.length X + List.length (n_tail_of r) < f).
+    { rewrite app_length in Hf. simpl List.length in Hf. lia. }
+    destruct f as [|f1]; [lia|].
+    rewrite <- !app_comm_cons.
+    rewrite (nloop_known f1 n_default_opts c cur adm h _ KExamples _ _ Hh Ek Hrs).
+    (* the reader stops in front of the blank line that separates the sections: the main loop skips it *)
+    assert (Hafter : nloop f1 n_default_opts c [] [] false (skipn (List.length X + 0) (X ++ n_tail_of r)) = POk (expect_numpy c r)).
+    { rewrite skipn_app_len. simpl skipn. destruct r as [|s2 r1].
+      - simpl n_tail_of. destruct f1; [lia|]. reflexivity.
+      - unfold n_tail_of in *.
+        change (List.length ([] :: render_numpy (s2 :: r1))) with (S (List.length (render_numpy (s2 :: r1)))) in Hlen.
+        destruct f1 as [|f2]; [lia|].
+        rewrite nloop_cons. change (is_fence (lower [])) with false. change (is_empty_line []) with true. cbv iota.
+        rewrite (IHr ltac:(discriminate) f2 ([] ++ [[]]) []) by lia. reflexivity. }
+    rewrite Hafter.
+    assert (Htitled : n_titled KExamples (BExamples (map (expect_chunk true) chunks)) = [GExamples None (map (expect_chunk true) chunks)]).
+    { destruct chunks; [congruence|reflexivity]. }
+    rewrite Htitled. rewrite pcons_ok. rewrite <- app_assoc. reflexivity.
 Qed.
 
 (* the whole docstring: optional free text first, then sections *)
@@ -1500,7 +1675,7 @@ Proof.
   - simpl tl in Htl. simpl in Hall. apply andb_true_iff in Hall. destruct Hall as [Hs Hr].
     unfold gap_F6 in Hgap. simpl in Hgap. apply orb_false_iff in Hgap. destruct Hgap as [Hgs Hgr].
     destruct (n_is_text s) eqn:Et.
-    + destruct s as [ls| | |]; try discriminate. simpl in Hs.
+    + destruct s as [ls| | | |]; try discriminate. simpl in Hs.
       rewrite render_numpy_tail. change (render_nsec (NText ls)) with ls.
       rewrite (body_then_rest c ls [] r Hs).
       * reflexivity.
@@ -1586,14 +1761,14 @@ Lemma numpy_single_yield_F6 :
     [GText (s_of "Summary."); GItems KYields None [mkItem (Some []) (Some (s_of "tuple[int, str]")) (s_of "Both.") None]].
 Proof. vm_compute. repeat split; reflexivity. Qed.
 
-(* non-vacuity: free text, parameters documented together with `, optional`, a default, a signature fallback, blank
+(* non-vacuity: free text with a fenced block (a dash-underlined line inside it), parameters documented together with `, optional`, a default, a signature fallback, blank
    lines between items, a dash-only line inside a description, two Returns items relying on the parent's tuple, an
    admonition, Raises, Deprecated *)
 Definition n_sample_ctx : pctx :=
   mkCtx (Some [(s_of "a", (Some (s_of "int"), None)); (s_of "b", (Some (s_of "str"), Some (s_of "'x'"))); (s_of "d", (Some (s_of "bool"), Some (s_of "True")))])
         (Some []) (RPlain (RPTuple (s_of "tuple[int, str]") [s_of "int"; s_of "str"])).
 Definition n_sample_doc : list nsec :=
-  [NText [s_of "Summary line."; []; s_of "More text: with a colon."];
+  [NText [s_of "Summary line."; []; s_of "More text: with a colon."; s_of "```"; s_of "Title"; s_of "-----"; s_of "   "; s_of "```"];
    NItems KParams (s_of "Parameters")
      [mkNI [s_of "a"; s_of "*b"] (Some (s_of "int")) None true [s_of "Both of them."; s_of "-----"; []; s_of "    code"; s_of "end."] 1;
       mkNI [s_of "c"] (Some (s_of "list[int]")) (Some (1, s_of "[1, 2]")) false [s_of "With default."] 0;
@@ -1603,7 +1778,10 @@ Definition n_sample_doc : list nsec :=
       mkNI [] None None false [s_of "The str."; s_of "Parameters"] 0];
    NAdm (s_of "Notes") [s_of "Some note."; []; s_of "Second paragraph."];
    NItems KRaises (s_of "Raises") [mkNI [] (Some (s_of "ValueError")) None false [s_of "When wrong."] 0];
-   NDeprecated (s_of "Deprecated") (s_of "1.2") [s_of "Use something else."]].
+   NDeprecated (s_of "Deprecated") (s_of "1.2") [s_of "Use something else."];
+   NExamples true (s_of "Examples")
+     [(false, [s_of "Some prose."]); (true, [s_of ">>> f(1)  # doctest: +SKIP"; s_of "<BLANKLINE>"; s_of "1"]); (true, [s_of ">>> g()"])];
+   NAdm (s_of "See Also") [s_of "other"]].
 Example n_sample_wf : wf_nsecs n_sample_ctx n_sample_doc = true /\ gap_F6 n_sample_ctx n_sample_doc = false.
 Proof. vm_compute. split; reflexivity. Qed.
 Example n_sample_parsed :
